@@ -1157,6 +1157,16 @@ func ruleRawPayloadWaivesExpectedOffset(c *eng.Ctx) {
 	q := &eng.PathQuery{Fn: fn, FromEntry: true, Target: func(x ssa.Instruction) bool { _, isRet := x.(*ssa.Return); return isRet }, CutInstr: waives, CutEdges: env}
 	w := q.Find()
 	c.Check(w == nil, "a raw payload waives the expected offset", p.Pos(fn.Pos()), "Offset = -1 on the path that wraps a non-envelope payload", "the message built for a non-envelope payload keeps Offset at its zero value ("+w.String()+"): on a stream with optimistic concurrency control that reads as `must land at offset 0`, so every raw payload after the first fails with ErrIncorrectOffset and is dropped without a nack — the payload is not stored verbatim")
+	// ... and an envelope's expectation is the one the publisher sent: on the envelope branch nothing but the decoded
+	// message's Offset is stored (a "normalisation" of other negative values to -1 turns a refusal into a waiver: round 12)
+	gv := eng.Call(0, "server.getMessage")
+	for _, st := range eng.FieldStores(fn, func(fa *ssa.FieldAddr) bool { return eng.FieldNameOf(fa) == "Offset" }) {
+		if g, _ := eng.GuardedBy(fn, st, env); !g {
+			continue
+		}
+		f, base := eng.FieldRead(st.Val)
+		c.Check(f != nil && f.Name() == "Offset" && gv(base), "an envelope's expected offset is stored as sent", c.Pos(st), "m.Offset = message.Offset and nothing else on the envelope branch", "natsToProtoMessage stores "+eng.Describe(st.Val)+" as the expected offset of an enveloped message: an expectation the log would have refused (any negative value other than -1) is rewritten into one it accepts, and a conditional publish is stored although its condition does not hold")
+	}
 }
 
 // ruleCreatedStreamUsesLoggedConfig (R06.6 extension, shared with C16 as the "replicated config → stream object" hop of
